@@ -30,7 +30,8 @@ def _verify_one(task):
     key, strict = task
     c = REG.contracts[key]
     tier = os.environ.get('VERIF_TIER', 'quick')
-    tmo = 20000 if tier == 'quick' else 60000
+    # VERIF_QUERY_TIMEOUT_MS: self-test knob (starve z3 to exercise the second-opinion stage)
+    tmo = int(os.environ.get('VERIF_QUERY_TIMEOUT_MS') or (20000 if tier == 'quick' else 60000))
     try:
         r = verify_contract(REG, c, timeout_ms=tmo, strict=strict)
     except Exception as ex:  # engine crash
@@ -41,38 +42,71 @@ def _verify_one(task):
     for n, o in r.obligations.items():
         obl[n] = dict(name=n, verdict=o['verdict'], paths=o['paths'], time=round(o['time'], 4),
                       model=o['model'], line=o['line'], backend=o['backend'],
-                      detail=o['detail'] if o['verdict'] == 'unknown' else '')
+                      detail=o['detail'] if o['verdict'] == 'unknown' else '',
+                      details=list(o.get('details') or []) if o['verdict'] == 'unknown' else [])
     return dict(key=key, strict=strict, status=r.status, error=r.error, obligations=obl, paths=r.paths,
                 unsupported=r.unsupported, notes=r.notes, vacuity=r.vacuity,
                 time=round(r.time, 3), file=r.file, line=r.line, stmts=r.stmts)
 
 
-def cvc5_second_opinion(results, timeout_s=20):
-    """Obligations z3 left unknown are re-asked to the cvc5 binary on the same
-    SMT-LIB text."""
+def _ask_again(job):
+    """One open path query (SMT-LIB text) -> name of the back end that answered unsat, or ''.
+    cvc5 first; then a fresh z3 process with a budget that does not depend on how busy the
+    machine was while all functions were being explored in parallel."""
+    import shutil
     import subprocess
     import tempfile
-    n = 0
-    for r in results:
-        for o in r['obligations'].values():
-            if o['verdict'] != 'unknown' or not o.get('detail'):
-                continue
-            with tempfile.NamedTemporaryFile('w', suffix='.smt2', delete=False, dir='/var/tmp') as f:
-                f.write('(set-logic ALL)\n' + o['detail'] + '\n')
-                path = f.name
+    text, timeout_s = job
+    with tempfile.NamedTemporaryFile('w', suffix='.smt2', delete=False, dir='/var/tmp') as f:
+        f.write('(set-logic ALL)\n' + text + '\n')
+        path = f.name
+    z3bin = shutil.which('z3-new') or shutil.which('z3')
+    cmds = [('cvc5', ['/usr/bin/cvc5', '--strings-exp', f'--tlimit={timeout_s * 1000}', path])]
+    if z3bin:
+        cmds.append(('z3', [z3bin, f'-T:{3 * timeout_s}', path]))
+    try:
+        for name, cmd in cmds:
             try:
-                out = subprocess.run(['/usr/bin/cvc5', '--strings-exp', f'--tlimit={timeout_s * 1000}',
-                                      path], capture_output=True, text=True, timeout=timeout_s + 5)
+                out = subprocess.run(cmd, capture_output=True, text=True, timeout=3 * timeout_s + 10)
                 ans = out.stdout.strip().split('\n')[0] if out.stdout else ''
             except Exception:
                 ans = ''
-            finally:
-                os.unlink(path)
             if ans == 'unsat':
+                return name
+        return ''
+    finally:
+        os.unlink(path)
+
+
+def cvc5_second_opinion(results, timeout_s=20, jobs=8):
+    """Obligations z3 left unknown are re-asked on the same SMT-LIB text, one query per open
+    path; the obligation counts as discharged only if EVERY open path is answered unsat."""
+    from concurrent.futures import ThreadPoolExecutor
+    todo = []
+    for r in results:
+        for o in r['obligations'].values():
+            if o['verdict'] != 'unknown':
+                continue
+            texts = [t for t in (o.get('details') or ([o['detail']] if o.get('detail') else [])) if t]
+            if texts:
+                todo.append((o, texts))
+    n = 0
+    if todo:
+        flat = [(t, timeout_s) for _, texts in todo for t in texts]
+        with ThreadPoolExecutor(max_workers=max(1, min(jobs, len(flat)))) as ex:
+            answers = list(ex.map(_ask_again, flat))
+        i = 0
+        for o, texts in todo:
+            got = answers[i:i + len(texts)]
+            i += len(texts)
+            if all(got):
                 o['verdict'] = 'proved'
-                o['backend'] = 'cvc5'
+                o['backend'] = 'cvc5' if 'cvc5' in got else 'z3'
                 n += 1
+    for r in results:
+        for o in r['obligations'].values():
             o['detail'] = ''
+            o['details'] = []
         if r['status'] == 'undecided' and not r['unsupported'] and \
                 all(o['verdict'] == 'proved' for o in r['obligations'].values()):
             r['status'] = 'proved'
@@ -374,8 +408,17 @@ def run_property(pid, tier='quick', seed=0, jobs=16, verbose=False):
     ev = dict(property_id=pid, tier=tier, seed=int(seed), level=level, coverage=cov,
               assumptions=trusted + [f'glue: {g}' for g in getattr(idx, 'GLUE', {}).get(pid, [])],
               wall_s=round(wall, 2), violations=len(violations))
-    os.makedirs(os.path.join(ROOT, 'evidence'), exist_ok=True)
-    json.dump(ev, open(os.path.join(ROOT, 'evidence', f'{pid}.json'), 'w'), indent=1, default=str)
+    # self-tests against seeded defects (tools/seedtest.sh) point VERIF_EVIDENCE_DIR at a scratch
+    # directory so that a record of a deliberately broken tree never replaces evidence/<id>.json
+    evdir = os.environ.get('VERIF_EVIDENCE_DIR') or os.path.join(ROOT, 'evidence')
+    os.makedirs(evdir, exist_ok=True)
+    ev = json.loads(json.dumps(ev, default=str))
+    bad = _evidence_problems(ev, pid, code)
+    if bad:
+        errors.extend(bad)
+        ev['coverage']['errors'] = errors[:10]
+        code = 3
+    json.dump(ev, open(os.path.join(evdir, f'{pid}.json'), 'w'), indent=1)
     # ---------------------------------------------------------------- report
     print(f'{pid}: {n_proved}/{n_obl} obligations discharged over {len(results)} functions '
           f'({sum(r["paths"] for r in results)} paths, z3 {by_backend.get("z3", 0)}, '
@@ -393,6 +436,33 @@ def run_property(pid, tier='quick', seed=0, jobs=16, verbose=False):
         print(f'  failed obligation: {n}')
         print(f'VIOLATION property={pid} replay={rp}' + (' no-failing-input-found' if nofail else ''))
     return code
+
+
+def _evidence_problems(ev, pid, code):
+    """The record must validate against the evidence schema (copy in tools/) and, on a quiet run,
+    carry the level MANIFEST.json claims; anything else is a checker error, not a verdict."""
+    out = []
+    try:
+        import jsonschema
+        schema = json.load(open(os.path.join(ROOT, 'tools', 'EVIDENCE.schema.json')))
+        out += [f'evidence record invalid: {e.message[:200]}'
+                for e in jsonschema.Draft202012Validator(schema).iter_errors(ev)]
+    except Exception as ex:  # validator missing: the record is still written
+        print(f'note: evidence record not schema-checked ({ex!r})', file=sys.stderr)
+    cov = ev['coverage']
+    if ev['level'] == 'proof' and cov['discharged'] != cov['obligations']:
+        out.append('evidence record invalid: level proof with discharged != obligations')
+    if ev['level'] == 'other' and not str(cov.get('explanation', '')).strip():
+        out.append('evidence record invalid: level other without coverage.explanation')
+    if code == 0:
+        try:
+            man = json.load(open(os.path.join(ROOT, 'MANIFEST.json')))
+            cat = next((c['level_claimed']['category'] for c in man['checks'] if c['property_id'] == pid), None)
+        except Exception:
+            cat = None
+        if cat is not None and cat != ev['level']:
+            out.append(f"evidence level '{ev['level']}' differs from MANIFEST level_claimed.category '{cat}'")
+    return out
 
 
 def _safe(n):
